@@ -8,9 +8,10 @@
 //     exec   gv(v: Vec<V>)       [603]  used only inside Vec<..>
 //     query  gr() -> R           [604]  used only as a query response
 //     sudo   gw(w: W)            [605]
+//     migrate gm(w: W)           [606]  -> MigrateMsg<W> (a struct message: carries a filtered where-clause)
 //     U: unused
 //   expected generated types (ORACLE, hand-written):
-//     sv::ExecMsg<A, B, V>   sv::QueryMsg<R>   sv::SudoMsg<W>   sv::InstantiateMsg
+//     sv::ExecMsg<A, B, V>   sv::QueryMsg<R>   sv::SudoMsg<W>   sv::InstantiateMsg   sv::MigrateMsg<W>
 //   interface Ifg { type T1; type T2; }
 //     exec ig(t: Self::T1) [611]      query iq() -> Self::T2 [612]
 //     expected: IfgExecMsg<T1>   IfgQueryMsg<T2>
@@ -104,7 +105,7 @@ pub mod ifg {
 pub mod gc {
     use super::{grec, Num};
     use core::marker::PhantomData;
-    use sylvia::ctx::{ExecCtx, InstantiateCtx, QueryCtx, SudoCtx};
+    use sylvia::ctx::{ExecCtx, InstantiateCtx, MigrateCtx, QueryCtx, SudoCtx};
     use sylvia::cw_std::{Response, StdError, StdResult};
 
     pub struct Gc<A, B, V, R, U, W> {
@@ -164,6 +165,14 @@ pub mod gc {
             grec(605, w.n());
             Ok(Response::new())
         }
+
+        // struct messages carry a where-clause: only predicates over THEIR parameters may be kept
+        // (`W: Num + PartialOrd<A>` mentions A, which MigrateMsg<W> does not have)
+        #[sv::msg(migrate)]
+        pub fn gm(&self, _ctx: MigrateCtx, w: W) -> StdResult<Response> {
+            grec(606, w.n());
+            Ok(Response::new())
+        }
     }
 
     impl<A, B, V, R, U, W> super::ifg::Ifg for Gc<A, B, V, R, U, W>
@@ -199,7 +208,7 @@ impl Default for Digit {
 /// Non-generic twin: the same program with the concrete types substituted.
 pub mod gn {
     use super::{grec, Digit, Num, N64};
-    use sylvia::ctx::{ExecCtx, InstantiateCtx, QueryCtx, SudoCtx};
+    use sylvia::ctx::{ExecCtx, InstantiateCtx, MigrateCtx, QueryCtx, SudoCtx};
     use sylvia::cw_std::{Response, StdError, StdResult};
 
     pub mod ifn {
@@ -265,6 +274,12 @@ pub mod gn {
         #[sv::msg(sudo)]
         pub fn gw(&self, _ctx: SudoCtx, w: u64) -> StdResult<Response> {
             grec(605, w.n());
+            Ok(Response::new())
+        }
+
+        #[sv::msg(migrate)]
+        pub fn gm(&self, _ctx: MigrateCtx, w: u64) -> StdResult<Response> {
+            grec(606, w.n());
             Ok(Response::new())
         }
     }
